@@ -49,6 +49,7 @@ type HistConfig struct {
 	PReuse     float64 // two runs on one executor (loaded once): the second with other generators or a muted one
 	IllTyped   bool    // one package declares a type on an undefined identifier
 	PTypeError float64 // motif: an edit, a type error planted in a package it imports, a run in which a generator panics, the repair, a run
+	NestedSub  bool    // ... whose module path lies below the main module's path
 	TwoModules bool    // a second local module (replace directive or go.work), imported by the main one; entrypoints in the main module
 }
 
@@ -308,6 +309,11 @@ func DrawHistory(r *Rng, cfg HistConfig) (*Scenario, *histWorld) {
 		nMain := len(m.Pkgs)
 		addSubModule(r, scfg, m)
 		m.Workspace = r.P(0.6)
+		if cfg.NestedSub {
+			// the other module's path lies BELOW the main module's path (a nested module of a multi-module
+			// repository): what is local is a matter of modules, not of import path prefixes
+			m.Sub.Path = m.ModPath + "/" + m.Sub.Dir
+		}
 		// some package of the main module imports the other module's packages
 		for _, pi := range r.Perm(nMain)[:r.Range(1, nMain)] {
 			m.Pkgs[pi].Imports = append(m.Pkgs[pi].Imports, nMain+r.Intn(2))
@@ -809,7 +815,10 @@ func SimC07(c *CheckCtx, i int, r *Rng) error {
 	if two {
 		c.Env.Stats.Add("probe/two-module-world", 1)
 	}
-	return runHistory(c, i, r, HistConfig{TwoModules: two, MinOps: 3, MaxOps: 7, PAll: 0.6, PForce: 0.3, PGlobals: 0.2, PSubsetGens: 0.5, PEdit: 0.15, PStale: 0.25,
+	if two && (i/12)%2 == 1 {
+		c.Env.Stats.Add("probe/two-module-world/nested-path", 1)
+	}
+	return runHistory(c, i, r, HistConfig{TwoModules: two, NestedSub: two && (i/12)%2 == 1, MinOps: 3, MaxOps: 7, PAll: 0.6, PForce: 0.3, PGlobals: 0.2, PSubsetGens: 0.5, PEdit: 0.15, PStale: 0.25,
 		PSumOps: 0.05, PBreak: 0.08, PGenFault: 0.12, PIOFault: 0.12, PKill: 0.1, PConverge: 0.2, PMute: 0.35, PDepOutside: 0.5, PReal: 0.1, PUniform: 0.3, PCancel: 0.05, PWarm: 0.1, PLinkOut: 0.1, PCwd: 0.2, PClock: 0.1, PProtect: 0.08, PReuse: 0.15, PFailAfterEdit: 0.08})
 }
 
